@@ -428,11 +428,89 @@ def t6(ctx, rid):
         raise core.AnchorLost('operations on HierarchicalFilters.children: %d' % n)
 
 
+def slot_empty_events(prog):
+    """blocks on whose entry the active slot (seen through the guard in hand) is known to be empty: the None edge of a match /
+    `if let` on `..active_blob`, the true edge of `.active_blob.is_none()` (false edge of is_some()), the return of a take()"""
+    def ev(g):
+        out = []
+        for i in g.reachable():
+            t = g.blocks[i]['t']
+            if t['k'] != 'switch':
+                continue
+            l = op_local(t['o'])
+            for (bb, si, kind, r) in g.defs().get(l, []):
+                if kind == 'assign' and r['k'] == 'discr':
+                    names = core.place_fields(r['p'])
+                    ty = core.place_type_str(g, r['p']) or ''
+                    if names and names[-1] == 'active_blob' or (not names and 'Option<std::boxed::Box<async_lock::RwLock<blob::core::Blob<' in ty and _from_slot(g, r['p'][0])):
+                        for v, tg in t['vals']:
+                            if v == 0:
+                                out.append(tg)
+                        if all(v == 1 for v, _ in t['vals']):
+                            out.append(t['otherwise'])
+                elif kind == 'call' and r.name in ('is_none', 'is_some') and r.path.startswith('std::option::Option') and prims.receiver_field(g, r) == 'active_blob':
+                    for v, tg in t['vals']:
+                        if v == 0 and r.name == 'is_some':
+                            out.append(tg)
+                    if r.name == 'is_none' and all(v == 0 for v, _ in t['vals']):
+                        out.append(t['otherwise'])
+        for c in g.calls:
+            if c.name == 'take' and c.path.startswith('std::option::Option') and prims.receiver_field(g, c) == 'active_blob' and c.t['t'] is not None:
+                out.append(c.t['t'])
+        return out
+    return ev
+
+
+def _from_slot(g, l):
+    return any(o.kind == 'field' and o.data and core.place_fields(o.data)[-1:] == ['active_blob'] for o in core.origins(g, l, stop_fields=True))
+
+
+def t7(ctx, rid):
+    """an assignment into the active slot never overwrites a live blob: it happens in exclusive initialisation (&mut Storage),
+    or only where the slot was seen empty under the guard in hand (a separate acquisition does not count), or the previous
+    content was moved out by take()/replace() (accounted for by the move-out rules)"""
+    prog = ctx.prog
+    ev = slot_empty_events(prog)
+    n = 0
+    for (f, bb, o, how) in core.field_sources(prog, 'storage::core::Safe', 'active_blob'):
+        if how == 'construct':
+            continue
+        ogs = core.origins(f, o) if o is not None else []
+        if ogs and all(og.kind == 'agg' and og.data.get('variant') == 'None' for og in ogs):
+            continue
+        root = prog.fns[prog.fns[f.id].root]
+        key = 'no-overwrite|%s' % root.id
+        n += 1
+        if root.argc >= 1 and root.locals[1]['s'].startswith('&mut storage::core::Storage<'):
+            ctx.ok(rid, key, f.where(bb), 'exclusive initialisation (&mut Storage): no client can have put a blob there', nontrivial=False)
+            continue
+        ok, w = core.dominated_up(prog, f, bb, ev)
+        if ok:
+            ctx.ok(rid, key, f.where(bb), 'dominated by an emptiness test of the slot (or a take) made through the guard in hand')
+        else:
+            ctx.bad(rid, key, f.where(bb), 'the active slot is assigned without having been seen empty under the same exclusive guard: a blob installed by a concurrent operation since the last (separately locked) test is overwritten and dropped - the records it acknowledged are no longer served', witness=w)
+    for g in prog.fns.values():
+        for c in g.calls:
+            if c.name in ('insert', 'get_or_insert') and c.path.startswith('std::option::Option') and prims.receiver_field(g, c) == 'active_blob' and c.bb in g.reachable():
+                n += 1
+                root = prog.fns[g.id].root
+                ok, w = core.dominated_up(prog, g, c.bb, ev)
+                (ctx.ok if ok else ctx.bad)(rid, 'no-overwrite|%s' % root, c.where(), 'Option::%s on the active slot %s' % (c.name, 'after an emptiness test' if ok else 'without an emptiness test under the same guard: the previous blob is dropped'))
+    if n < 4:
+        raise core.AnchorLost('assignments into Safe.active_blob: %d' % n)
+
+
+def t8(ctx, rid):
+    moveout.dropped_rule(ctx, rid)
+
+
 RULES = [
     Rule('C04.T1', 'every value stored into the active-blob slot is certified to have an in-memory index (open_new, load_index ok, or popped after load_index ok on the last element)', t1, 7),
     Rule('C04.T2', 'every index push is dominated by an InMemory-establishing event, in the body or in every caller, or acts on the active-blob slot', t2, 3),
     Rule('C04.T3', 'Blob::dump is never applied to the blob sitting in the active slot', t3, 3),
     Rule('C04.T4', 'a blob in transit between the active slot and the closed list stays under the exclusive storage guard until handed back', t4, 3),
     Rule('C04.T5', 'every transition of an existing index to InMemory re-initialises its filter', t5, 2),
+    Rule('C04.T7', 'an assignment into the active slot never overwrites a live blob (emptiness seen through the guard in hand, exclusive init, or previous content moved out)', t7, 4),
+    Rule('C04.T8', 'a blob moved out of the active slot or the closed list is handed back on every non-error exit', t8, 4),
     Rule('C04.T6', 'the closed-blob vector (child ids are positions) is never shrunk', t6, 4),
 ]
